@@ -694,13 +694,27 @@ fn trace_reset(w: &mut W, seed: u64, n_ops: usize, st: &mut Stats) {
     let mut i = 0;
     while i < n_prefix || (want_sel && !sel && i < 3 * n_ops) {
         let mut ops = gen_ops(&mut rng, sel, false, true);
-        ops.retain(|o| *o != Op::Set(10, 0));
+        // the KEYS that add user phrases (Ctrl-digit; Enter on a highlighted range, hence Shift-Left/Right) are kept
+        // out of the prefix: the new context could not be given exactly the same user dictionary
+        ops.retain(|o| *o != Op::Set(10, 0) && !matches!(o, Op::CtrlNum(_) | Op::Named(6) | Op::Named(8)));
         prefix.extend(ops);
         while i < prefix.len() {
             unsafe { apply(a, &prefix[i]) };
             i += 1;
         }
         sel = selecting(a);
+    }
+    // every sixth trace: reset while a range is highlighted
+    if rng.chance(1, 6) {
+        let mut extra: Vec<Op> = if sel { vec![Op::CandClose] } else { vec![] };
+        extra.extend(b"hk4g4".iter().map(|k| Op::Default(*k)));
+        extra.push(Op::Named(6));
+        for o in &extra {
+            unsafe { apply(a, o) };
+        }
+        prefix.extend(extra);
+        sel = false;
+        st.r_highlighting += 1;
     }
     for o in &prefix {
         hist.push(o.text());
@@ -953,6 +967,7 @@ struct Stats {
     r_in_selecting: u64,
     r_in_syllable: u64,
     r_raw_after_reset: u64,
+    r_highlighting: u64,
     p_traces: u64,
     p_ops: u64,
     p_other_ops: u64,
@@ -997,6 +1012,7 @@ fn worker(section: &str, from: u64, to: u64) {
             o.stat("R.reset_while_selecting", st.r_in_selecting);
             o.stat("R.reset_with_pending_syllable", st.r_in_syllable);
             o.stat("R.raw_slot_reads_after_reset", st.r_raw_after_reset);
+            o.stat("R.reset_after_shift_left_highlight", st.r_highlighting);
             o.stat("R.observations", st.observations);
         }
         _ => {
